@@ -8,7 +8,10 @@ Case (driver "uploads"):
    "await_all": true | false | null,
    "progress": bool,                                 pass a progress callback
    "n": int,                                         selects addresses / keys
-   "trace": [["R"] | ["o", ACTION, dir] | ["f", ACTION, dir] | ["c", who]]}
+   "trace": [["R"] | ["o", ACTION, dir] | ["f", ACTION, dir] | ["c", who]],
+   "reply": "ok" | {"rejected": 5xx code},           optional (default "ok"): what R carries
+   "refuse": null | "crlf" | "v3-rsa",               optional, ephemeral kinds: a key txtorcon itself refuses
+   "app_listener": bool}                             optional: the application has its own HS_DESC listener
      R = the ADD_ONION / SETCONF reply arrives;  o = HS_DESC event of the service itself,
      f = of a second (foreign) service, ACTION in UPLOAD/UPLOADED/FAILED, dir = directory index
      (equal indices = the same HSDir);  c = an HS_DESC CREATED event (noise Tor also sends).
@@ -16,6 +19,9 @@ The driver interprets the trace causally: an outcome whose UPLOAD was not seen y
 UPLOAD/outcome for the same (service, directory), and - for ADD_ONION services, whose address only
 exists once Tor replied - own events before R are skipped (counted); a missing R is appended.
 After every step the create() Deferred is compared with vlib.onionref.UploadModel.
+When Tor rejects the creating command, or txtorcon refuses the key (then no command is sent and R
+is dropped), the service never exists: own events are skipped, create() must fail at that moment
+with that error, and the creation's HS_DESC listener must be gone once everything is answered.
 """
 from __future__ import annotations
 
@@ -39,23 +45,34 @@ RULE = ("Histories of HS_DESC UPLOAD/UPLOADED/FAILED events over 1..4 directorie
         "EphemeralOnionService / EphemeralAuthenticatedOnionService / FilesystemOnionService / "
         "FilesystemAuthenticatedOnionService .create over the real control protocol; after every event the "
         "create() Deferred is compared with a reference completion model, at the end with the subscription "
-        "state. Hypothesis draws traces; thorough enumerates every causal interleaving within stated bounds. "
+        "state. The creating command's reply is 250 or a 5xx rejection (512/513/550/551/552/553), or txtorcon "
+        "refuses the key itself (CR/LF blob, RSA key with version 3; no command sent): then the service never "
+        "exists, only foreign events flow, create() must fail exactly when the rejection arrives with Tor's "
+        "error (ValueError for a refused key), and afterwards only an application-owned HS_DESC listener (present "
+        "in part of the cases, also on the success paths) may be left. "
+        "Hypothesis draws traces; thorough enumerates every causal interleaving within stated bounds. "
         "Non-trivial = >=2 own directories and (a foreign event or a FAILED event) present and the model decides "
-        "within the trace; distinct = distinct canonical JSON.")
+        "within the trace; for a creation that never exists: >=1 event after the failure and (>=1 event before it, "
+        "or a refused key, or an application listener); distinct = distinct canonical JSON.")
 ASSUMPTIONS = [
     "each (service, directory) pair gets at most one UPLOAD and one outcome per trace (no retries); an UPLOAD precedes its outcome",
     "an ADD_ONION service's own events never precede the ADD_ONION reply (its address does not exist before); a filesystem service's may precede the SETCONF reply",
     "completion is evaluated eagerly: a decision is due as soon as the events seen so far satisfy the statement (later UPLOADs do not retract it), and never before the creating command was answered",
-    "a failed create() may carry any exception type; a successful one must return the service object",
+    "a create() that fails because every upload failed may carry any exception type; a successful one must return the service object",
+    "when Tor rejects ADD_ONION/SETCONF with 5xx the service never exists: Tor sends no event for it (own events in such a trace are skipped and counted), create() stays pending until the rejection arrives and then fails with TorProtocolError carrying that code; a key txtorcon refuses (CR/LF in the blob; RSA1024 key with version=3, as its tests pin) fails create() with ValueError; if it sends ADD_ONION for such a key instead the case is excluded and counted (whether that is allowed is C14's subject)",
+    "after such a failure the creation's HS_DESC listener must be gone and, unless the application registered its own HS_DESC listener through add_event_listener (then exactly that one stays and keeps receiving every event), the last SETEVENTS must not name HS_DESC; judged once everything txtorcon sent has been answered (the server answers SETEVENTS at once)",
     "SETEVENTS is answered at once by the server; the subscription is judged when the trace has been fully delivered",
     "events use modern Tor's format (real address in UPLOADED); HSDir names are $FINGERPRINT~nick",
     "the progress callback's values are recorded (labels) but not judged: the statement does not constrain them and txtorcon's old-Tor path deliberately reports 102..106",
-    "the ADD_ONION/SETCONF command is answered 250; rejected commands (and keys txtorcon refuses before sending) are outside the quantifier",
+    "rejection texts are short ASCII; the codes are the ones Tor uses for ADD_ONION/SETCONF (512, 513, 550, 551, 552, 553)",
     "Tor reports a version >= 0.2.7.2 (older ones have no usable HS_DESC and txtorcon documents that it then declares success at once)",
     "a discrepancy that disappears when the foreign service's UPLOADED events on directories the own service is uploading to are removed from the history is attributed to the known finding 'UPLOADED matched by directory only'; everything else keeps its own tag",
 ]
 
 ACTIONS = ("UPLOAD", "UPLOADED", "FAILED")
+REJECT_CODES = [512, 513, 550, 551, 552, 553]
+REJECT_TEXTS = {512: "Bad arguments to ADD_ONION", 513: "Unacceptable option value", 550: "Onion address collision",
+                551: "Failed to generate RSA key", 552: "Unrecognized option", 553: "Unable to set option"}
 KNOWN_FOREIGN = "foreign-uploaded-on-shared-dir-counts"
 
 
@@ -64,6 +81,8 @@ KNOWN_FOREIGN = "foreign-uploaded-on-shared-dir-counts"
 def interpret(case):
     """Drop steps a causal Tor cannot produce; returns (steps, skipped_count)."""
     eph = case["kind"] in ("ephemeral", "auth")
+    never = never_exists(case)          # rejected / refused: the service never exists, no own events
+    refused = bool(case.get("refuse"))
     seen_up = set()
     seen_out = set()
     replied = False
@@ -72,14 +91,14 @@ def interpret(case):
     for st_ in case["trace"]:
         t = st_[0]
         if t == "R":
-            if replied:
+            if replied or refused:
                 skipped += 1
                 continue
             replied = True
             out.append(["R"])
         elif t in ("o", "f"):
             act, d = st_[1], st_[2]
-            if t == "o" and eph and not replied:
+            if t == "o" and (never or (eph and not replied)):
                 skipped += 1
                 continue
             if act == "UPLOAD":
@@ -94,15 +113,24 @@ def interpret(case):
                 seen_out.add((t, d))
             out.append([t, act, d])
         elif t == "c":
-            if st_[1] == "o" and eph and not replied:
+            if st_[1] == "o" and (never or (eph and not replied)):
                 skipped += 1
                 continue
             out.append(["c", st_[1]])
         else:
             skipped += 1
-    if not replied:
+    if not replied and not refused:
         out.append(["R"])
     return out, skipped
+
+
+def rejected_code(case):
+    r = case.get("reply", "ok")
+    return r["rejected"] if isinstance(r, dict) else None
+
+
+def never_exists(case):
+    return rejected_code(case) is not None or bool(case.get("refuse"))
 
 
 # --------------------------------------------------------------------------- driver
@@ -125,6 +153,8 @@ class _Obs(object):
         self.decided_at = None
         self.progress = []
         self.sent = True
+        self.not_refused = False
+        self.failed_at = None       # never-exists class: step index at which create() must have failed (-1 = at once)
 
 
 def _execute(case, steps):
@@ -155,11 +185,27 @@ def _execute(case, steps):
     if case["progress"]:
         kw["progress"] = on_progress
     tmp = None
+    code = rejected_code(case)
+    refuse = case.get("refuse") if kind in ("ephemeral", "auth") else None
+    app_events = []
+
+    def app_listener(evt):
+        app_events.append(evt)
+
     with LogCapture():
         cfg = tor.config()
+        if case.get("app_listener"):
+            tor.proto.add_event_listener("HS_DESC", app_listener)
+            tor.pipe.pump()
         if kind in ("ephemeral", "auth"):
             pk = None
-            if case["key"] == "discard":
+            if refuse == "crlf":
+                blob = rsa_blob if version == 2 else onionref.desc_id(3, n) + onionref.desc_id(3, n + 1)
+                pk = blob[:20] + ["\n", "\r", "\r\n"][n % 3] + blob[20:]
+            elif refuse == "v3-rsa":
+                version = 3
+                pk = "RSA1024:" + rsa_blob[:40].replace("V3", "v3")
+            elif case["key"] == "discard":
                 pk = txonion.DISCARD
             elif case["key"] == "supplied":
                 pk = rsa_blob if (kind == "auth" or version == 2) else onionref.desc_id(3, n) + onionref.desc_id(3, n + 1)
@@ -190,23 +236,37 @@ def _execute(case, steps):
                 d = txonion.FilesystemOnionService.create(
                     reactor, cfg, hsdir, [(80, 8080)], version=version, **kw)
             reply = wire.ok()
+        if code is not None:
+            reply = wire.err(code, REJECT_TEXTS.get(code, "Unacceptable"))
         w = Watch(d, passthrough=True)
         tor.pipe.pump()
 
         try:
             held = tor.add_onion_lines if kind in ("ephemeral", "auth") else tor.setconf_lines
-            if len(held) != 1:
+            ref = ob.ref = onionref.UploadModel(await_all)
+            if refuse:
+                if held:
+                    # not refused after all; whether such a key may be sent is C14's subject, not judged here
+                    ob.sent = False
+                    ob.not_refused = True
+                    return ob
+                ob.failed_at = -1
+                if not (w.failed and w.failure.check(ValueError)):
+                    ob.problems.append(("refused-key-wrong-outcome", "key %r: create() -> %r, expected ValueError" % (
+                        pk, w.outcome())))
+            elif len(held) != 1:
                 ob.sent = False
                 ob.problems.append(("creating-command-not-sent", "commands so far %r, create -> %r" % (
                     tor.pipe.commands[-4:], w.outcome())))
                 return ob
 
-            ref = ob.ref = onionref.UploadModel(await_all)
             replied = False
             for i, s in enumerate(steps):
                 if s[0] == "R":
                     replied = True
                     tor.reply(reply)
+                    if code is not None:
+                        ob.failed_at = i
                 elif s[0] == "c":
                     addr = own if s[1] == "o" else foreign
                     tor.event(onionref.hs_desc("CREATED", addr, "UNKNOWN", descid=onionref.desc_id(version, 7),
@@ -233,7 +293,15 @@ def _execute(case, steps):
                     tor.event(ev)
 
                 want = ref.decision if replied else None
+                if ob.failed_at is not None:
+                    want = "failure"
                 got = None if w.pending else ("failure" if w.failed else "success")
+                if code is not None and replied and ob.mismatch is None and w.failed and not (
+                        type(w.failure.value).__name__ == "TorProtocolError" and
+                        getattr(w.failure.value, "code", None) == code):
+                    ob.problems.append(("rejected-command-wrong-error",
+                                        "Tor answered %d, create() -> %r" % (code, w.outcome())))
+                    code = None         # report once
                 if want is not None and ob.decided_at is None:
                     ob.decided_at = i
                 if got != want and ob.mismatch is None:
@@ -254,19 +322,34 @@ def _execute(case, steps):
                 if not okobj:
                     ob.problems.append(("wrong-result", "create() returned %r" % (svc,)))
             # subscription once the outcome is out
+            # (an application-owned listener, if the case has one, must be the only one left)
             evs = tor.proto.events
-            listeners = len(evs["HS_DESC"].callbacks) if "HS_DESC" in evs else 0
+            cbs = list(evs["HS_DESC"].callbacks) if "HS_DESC" in evs else []
+            listeners = len(cbs)
+            mine = [app_listener] if case.get("app_listener") else []
             if not w.pending:
-                if listeners or tor.subscribed("HS_DESC"):
-                    ob.problems.append(("subscription-kept-after-" + ("failure" if w.failed else "success"),
-                                        "trace %r: create() -> %s but HS_DESC has %d listener(s), last SETEVENTS %r" % (
-                                            steps, w.outcome()[0], listeners, tor.setevents_lines[-1:])))
+                if cbs != mine or tor.subscribed("HS_DESC") != bool(mine):
+                    if ob.failed_at is not None:
+                        tag = "subscription-kept-after-rejected-command"
+                    else:
+                        tag = "subscription-kept-after-" + ("failure" if w.failed else "success")
+                    if [c for c in mine if c not in cbs] or (mine and not tor.subscribed("HS_DESC")):
+                        tag = "application-listener-removed"
+                    ob.problems.append((tag, "trace %r%s: create() -> %s but HS_DESC has %d listener(s) (%d expected: the "
+                                        "application's), last SETEVENTS %r" % (
+                                            steps, " refused key" if refuse else "", w.outcome()[:2], listeners,
+                                            len(mine), tor.setevents_lines[-1:])))
             elif ref.decision is None and not ob.taints and not (listeners and tor.subscribed("HS_DESC")):
                 ob.problems.append(("subscription-dropped-while-pending",
                                     "trace %r: create() pending, model undecided, but HS_DESC has %d listeners, "
                                     "last SETEVENTS %r" % (steps, listeners, tor.setevents_lines[-1:])))
             if tor.pipe.escaped:
                 ob.problems.append(("exception-escaped", repr(tor.pipe.escaped[0])))
+            ob.app_events = len(app_events)
+            ob.hs_events = sum(1 for s in steps if s[0] != "R")
+            if case.get("app_listener") and ob.app_events != ob.hs_events:
+                ob.problems.append(("application-listener-missed-events", "%d HS_DESC events delivered, the "
+                                    "application's listener saw %d" % (ob.hs_events, ob.app_events)))
         finally:
             if tmp:
                 shutil.rmtree(tmp, ignore_errors=True)
@@ -276,6 +359,10 @@ def _execute(case, steps):
 def _symptom_tag(case, ob):
     i, sym, detail = ob.mismatch
     ref = ob.ref
+    if never_exists(case):
+        # want is "pending" before the rejection and "failure" from then on
+        return {"not-failed": "rejected-create-not-failed", "wrong-outcome": "rejected-create-succeeded",
+                "completed-early": "rejected-create-succeeded", "failed-early": "rejected-create-failed-early"}[sym]
     if case["kind"] == "auth" and case["key"] == "discard" and sym in ("not-completed", "not-failed"):
         return "auth-discard-own-events-unmatched"
     if sym == "not-completed" and ref.await_all and ref.failed:
@@ -291,6 +378,8 @@ def drive_uploads(case):
     ob = _execute(case, steps)
     for tag, detail in ob.problems:
         res.bad(tag, detail)
+    if ob.not_refused:
+        res.excluded.append("key-not-refused-by-txtorcon")
     if not ob.sent:
         return res
     if ob.mismatch is not None:
@@ -316,24 +405,37 @@ def drive_uploads(case):
     has_foreign = bool(for_dirs)
     has_failed = any(s[0] == "o" and s[1] == "FAILED" for s in steps)
     res.nontrivial = len(own_dirs) >= 2 and (has_foreign or has_failed) and ref.decision is not None
+    never = never_exists(case)
+    if never:
+        after = len(steps) - 1 - ob.failed_at
+        res.nontrivial = after >= 1 and (ob.failed_at >= 1 or bool(case.get("refuse")) or bool(case.get("app_listener")))
+        res.label("never-exists:" + ("refused-key-" + case["refuse"] if case.get("refuse") else "rejected-%d" % rejected_code(case)))
+        if after >= 1:
+            res.label("events-after-rejection")
+        if ob.failed_at >= 1:
+            res.label("events-before-rejection")
+    if case.get("app_listener"):
+        res.label("app-listener" + ("+never-exists" if never else ""))
     res.label("kind:" + kind, "v%d" % version, "mode:" + ("all" if await_all else "one"),
-              "model:" + (ref.decision or "undecided"), "own-dirs:%d" % len(own_dirs))
+              "model:" + ("never-exists" if never else (ref.decision or "undecided")), "own-dirs:%d" % len(own_dirs))
     if kind in ("ephemeral", "auth"):
         res.label("key:" + case["key"])
     if own_dirs & for_dirs:
         res.label("shared-dir")
     if ob.taints:
         res.label("foreign-UPLOADED-on-own-attempted-dir")
-    ridx = steps.index(["R"])
-    if ridx == 0:
+    ridx = steps.index(["R"]) if ["R"] in steps else -1
+    if ridx < 0:
+        res.label("reply:none")
+    elif ridx == 0:
         res.label("reply:first")
     elif ridx == len(steps) - 1:
         res.label("reply:last")
     else:
         res.label("reply:between")
-    if any(s[0] == "o" for s in steps[:ridx]):
+    if any(s[0] == "o" for s in steps[:max(ridx, 0)]):
         res.label("own-event-before-reply")
-    if any(s[0] == "f" for s in steps[:ridx]):
+    if any(s[0] == "f" for s in steps[:max(ridx, 0)]):
         res.label("foreign-event-before-reply")
     if ob.decided_at is not None and ob.decided_at < len(steps) - 1:
         res.label("events-after-decision")
@@ -386,10 +488,25 @@ def cases(draw):
     else:
         rpos = draw(st.one_of(st.just(0), st.integers(0, len(trace))))
     trace.insert(rpos, ["R"])
-    return {"kind": kind, "version": version,
+    case = {"kind": kind, "version": version,
             "key": draw(st.sampled_from(["none", "none", "discard", "supplied"])) if kind in ("ephemeral", "auth") else "none",
             "await_all": draw(st.sampled_from([True, True, False, None])),
             "progress": draw(st.booleans()), "n": draw(st.integers(0, 5)), "trace": trace}
+    outcome = draw(st.sampled_from(["ok", "ok", "ok", "ok", "ok", "rejected", "rejected", "refused"]))
+    if outcome != "ok":
+        # the service never exists: only the foreign service's events (and noise) remain, R anywhere
+        trace = [s_ for s_ in trace if s_[0] == "f" or s_ == ["c", "f"]]
+        if outcome == "refused" and kind in ("ephemeral", "auth"):
+            case["refuse"] = draw(st.sampled_from(["crlf", "v3-rsa"] if kind == "ephemeral" else ["crlf"]))
+            if case["refuse"] == "v3-rsa":
+                case["version"] = 3
+        else:
+            case["reply"] = {"rejected": draw(st.sampled_from(REJECT_CODES))}
+            trace.insert(draw(st.integers(0, len(trace))), ["R"])
+        case["trace"] = trace
+    if draw(st.integers(0, 5)) == 0 or (outcome != "ok" and draw(st.booleans())):
+        case["app_listener"] = True
+    return case
 
 
 def _merges(a, b):
@@ -472,6 +589,31 @@ def reply_placement_cases():
                                 yield _mk(kind, version, key, mode, k % 3, tr[:pos] + [["R"]] + tr[pos:])
 
 
+def never_exists_cases():
+    """Tor rejects the creating command (every reply position among a foreign service's events) or
+    txtorcon refuses the key; with and without an application-owned HS_DESC listener."""
+    k = 0
+    kinds = [("ephemeral", 3, "none"), ("ephemeral", 2, "supplied"), ("ephemeral", 3, "discard"),
+             ("fs", 3, "none"), ("fs", 2, "none"), ("auth", 2, "none"), ("fsauth", 2, "none")]
+    traces = [[]] + list(_service_orders("f", [0])) + list(_service_orders("f", [0, 1]))
+    for tr in traces:
+        for app in (False, True):
+            for kind, version, key in kinds:
+                for pos in range(len(tr) + 1):
+                    k += 1
+                    c = _mk(kind, version, key, [False, True, None][k % 3], k % 3, tr[:pos] + [["R"]] + tr[pos:])
+                    c["reply"] = {"rejected": REJECT_CODES[k % len(REJECT_CODES)]}
+                    c["app_listener"] = app
+                    yield c
+            for kind, version, refuse in (("ephemeral", 2, "crlf"), ("ephemeral", 3, "crlf"), ("ephemeral", 3, "v3-rsa"),
+                                          ("auth", 2, "crlf")):
+                k += 1
+                c = _mk(kind, version, "supplied", [False, True, None][k % 3], k % 3, list(tr))
+                c["refuse"] = refuse
+                c["app_listener"] = app
+                yield c
+
+
 _PLAIN = [("ephemeral", 2, "none"), ("ephemeral", 3, "none"), ("fs", 3, "none"), ("ephemeral", 3, "discard"),
           ("fs", 2, "none"), ("ephemeral", 2, "supplied"), ("ephemeral", 3, "supplied"), ("ephemeral", 2, "discard")]
 _RSA = [("auth", 2, "none"), ("fsauth", 2, "none"), ("auth", 2, "discard"), ("auth", 2, "supplied")]
@@ -490,6 +632,9 @@ MANIFEST = {
             "real control-protocol parser; oracle = an independent completion model evaluated after every event "
             "(pending exactly until the deciding event, then fired once with that outcome; foreign events never "
             "decide) and the HS_DESC subscription (listener table and last SETEVENTS) once the outcome is out. "
+            "Also covered: the creating command rejected with 5xx at every position among a foreign service's events, "
+            "and keys txtorcon refuses before sending - create() must fail then and there with that error and leave "
+            "no HS_DESC listener of its own (an application-owned listener must survive and keep receiving events). "
             "Finds counterexamples; does not prove absence.",
     "note": "Trusted: vlib/onionref.py (completion model, event renderers, scripted Tor), vlib/wire.py, the fake "
             "transport. One directory = one upload attempt per service (no retries).",
@@ -507,8 +652,11 @@ def run(ctx):
                       name="own2-foreign1-sample", exhaustive=False)
         ctx.enumerate("uploads", itertools.islice(own_only_cases(3, ALL_KINDS), 0, None, 7),
                       name="own-3dirs-sample", exhaustive=False)
+        ctx.enumerate("uploads", itertools.islice(never_exists_cases(), 0, None, 7),
+                      name="never-exists-sample", exhaustive=False)
         ctx.search("uploads", cases(), quick=700)
     else:
+        ctx.enumerate("uploads", never_exists_cases(), name="rejected-or-refused-every-reply-position")
         ctx.enumerate("uploads", own_only_cases(1, ALL_KINDS), name="own-1dir-all-orders")
         ctx.enumerate("uploads", own_only_cases(3, ALL_KINDS), name="own-3dirs-all-orders")
         ctx.enumerate("uploads", own_only_cases(4, ALL_KINDS[:3]), name="own-4dirs-all-orders")
@@ -519,7 +667,8 @@ def run(ctx):
         ctx.search("uploads", cases(), quick=700, thorough=1000)
 
 
-# NOTE: written against the tree with out/fixes/C15-*.diff applied (three of them touch this code).
+# NOTE: written against the tree with every fixes/C15-*.diff applied (they touch this code), including
+# fixes/C15-subscription-kept-after-rejected-command.diff.
 MUTANTS = [
     ("complete-on-UPLOAD", "txtorcon/onion.py",
      "                attempted_uploads.add(args[3])\n",
@@ -545,10 +694,11 @@ MUTANTS = [
      "                elif await_all and confirmed_uploads and not uploaded.called:",
      "                elif False:"),
     ("listener-removed-before-waiting", "txtorcon/onion.py",
-     "    yield tor_protocol.add_event_listener('HS_DESC', hs_desc)\n",
-     "    yield tor_protocol.add_event_listener('HS_DESC', hs_desc)\n"
-     "    tor_protocol.valid_events['HS_DESC'].unlisten(hs_desc)\n"
-     "    tor_protocol.valid_events['HS_DESC'].listen(lambda evt: None)\n"),
+     "        yield tor_protocol.add_event_listener('HS_DESC', hs_desc)\n",
+     "        yield tor_protocol.add_event_listener('HS_DESC', hs_desc)\n"
+     "        tor_protocol.valid_events['HS_DESC'].unlisten(hs_desc)\n"
+     "        hs_desc = lambda evt: None\n"
+     "        tor_protocol.valid_events['HS_DESC'].listen(hs_desc)\n"),
     ("listener-never-removed-on-success", "txtorcon/onion.py",
      "        raise\n    yield tor_protocol.remove_event_listener('HS_DESC', hs_desc)\n",
      "        raise\n"),
@@ -568,10 +718,41 @@ MUTANTS = [
      "    await_all = False if await_all_uploads is None else await_all_uploads\n",
      "    await_all = False\n"),
     ("fs-does-not-wait", "txtorcon/onion.py",
-     "            uploaded[0] = _await_descriptor_upload(config.tor_protocol, fhs, progress, await_all_uploads)\n\n"
-     "        yield config.save()\n        yield uploaded[0]\n        return fhs\n\n    def __init__(self, config, thedir, ports, version=3, group_readable=0):",
-     "            uploaded[0] = _await_descriptor_upload(config.tor_protocol, fhs, progress, await_all_uploads)\n\n"
-     "        yield config.save()\n        return fhs\n\n    def __init__(self, config, thedir, ports, version=3, group_readable=0):"),
+     "            raise\n        yield uploaded[0]\n        return fhs\n\n"
+     "    def __init__(self, config, thedir, ports, version=3, group_readable=0):",
+     "            raise\n        return fhs\n\n"
+     "    def __init__(self, config, thedir, ports, version=3, group_readable=0):"),
+    # --- the creation fails before the service exists (rejected command / refused key)
+    ("rejected-add-onion-wait-not-abandoned", "txtorcon/onion.py",
+     "        # no service, so no descriptor to wait for\n        _abandon_descriptor_wait(uploaded_d)\n",
+     "        # no service, so no descriptor to wait for\n"),
+    ("rejected-setconf-wait-not-abandoned-fs", "txtorcon/onion.py",
+     "            _abandon_descriptor_wait(uploaded[0])\n            raise\n        yield uploaded[0]\n        return fhs\n\n"
+     "    def __init__(self, config, thedir, ports, version=3, group_readable=0):",
+     "            raise\n        yield uploaded[0]\n        return fhs\n\n"
+     "    def __init__(self, config, thedir, ports, version=3, group_readable=0):"),
+    ("rejected-setconf-wait-not-abandoned-fsauth", "txtorcon/onion.py",
+     "            _abandon_descriptor_wait(uploaded[0])\n            raise\n        yield uploaded[0]\n        return fhs\n\n"
+     "    def __init__(self, config, thedir, ports, auth, version=3, group_readable=0):",
+     "            raise\n        yield uploaded[0]\n        return fhs\n\n"
+     "    def __init__(self, config, thedir, ports, auth, version=3, group_readable=0):"),
+    ("abandon-swallows-but-does-not-cancel", "txtorcon/onion.py",
+     "        uploaded_d.addErrback(lambda _: None)\n        uploaded_d.cancel()\n",
+     "        uploaded_d.addErrback(lambda _: None)\n"),
+    ("cancel-during-subscribe-keeps-listener", "txtorcon/onion.py",
+     "    try:\n        yield tor_protocol.add_event_listener('HS_DESC', hs_desc)\n        yield uploaded\n",
+     "    yield tor_protocol.add_event_listener('HS_DESC', hs_desc)\n    try:\n        yield uploaded\n"),
+    ("abandon-hides-tors-error", "txtorcon/onion.py",
+     "        # no service, so no descriptor to wait for\n        _abandon_descriptor_wait(uploaded_d)\n        raise\n",
+     "        # no service, so no descriptor to wait for\n        _abandon_descriptor_wait(uploaded_d)\n"
+     "        yield uploaded_d\n"),
+    ("abandon-removes-every-hs-desc-listener", "txtorcon/onion.py",
+     "        uploaded_d.addErrback(lambda _: None)\n        uploaded_d.cancel()\n",
+     "        uploaded_d.addErrback(lambda _: None)\n        uploaded_d.cancel()\n"
+     "        import gc\n"
+     "        for o in gc.get_objects():\n"
+     "            if type(o).__name__ == 'Event' and getattr(o, 'name', None) == 'HS_DESC':\n"
+     "                del o.callbacks[:]\n"),
     ("discard-auth-id-fallback-removed", "txtorcon/onion.py",
      "        if not isinstance(self._private_key, str):\n", "        if False:\n"),
 ]
